@@ -116,7 +116,8 @@ PLANS = {
     },
     "C13": {
         "quick": [ex("hpeg2", "peg", 2, 2, hist=1), ex("hmemo2", "memo", 2, 2, hist=2, modes=["E"], kinds=["slice"]),
-                  rec("pegH", "peg", 1200, 8, 6, kinds=["str", "slice", "stream"]), rec("memoH", "memo", 600, 8, 6), rec("rcvH", "rcv", 600, 8, 6)],
+                  rec("pegH", "peg", 1000, 8, 6, kinds=["str", "slice", "stream"]), rec("memoH", "memo", 500, 8, 6), rec("rcvH", "rcv", 500, 8, 6),
+                  rec("repH", "rep", 800, 8, 6), rec("recH", "rec", 500, 8, 8), rec("ctxH", "ctx", 400, 8, 6), rec("lblH", "lbl", 400, 8, 6)],
         "thorough": [ex("hpeg2", "peg", 2, 2, hist=3, modes=["E"]), ex("hpeg3", "peg", 3, 2, hist=1), ex("hmemo3", "memo", 3, 2, hist=2, modes=["E"], kinds=["slice"]),
                      ex("hrcv2", "rcv", 2, 2, hist=2, modes=["E"]),
                      rec("pegH", "peg", 20000, 10, 8, kinds=["str", "slice", "stream"]), rec("memoH", "memo", 10000, 10, 8), rec("rcvH", "rcv", 10000, 10, 8),
